@@ -17,7 +17,7 @@ open Physis Physis.Spec.Mdl
 
 /-! ### small list / record facts -/
 
-theorem psum_succ (f : α → Nat) (l : List α) (i : Nat) (x : α) (h : l[i]? = some x) :
+private theorem psum_succ (f : α → Nat) (l : List α) (i : Nat) (x : α) (h : l[i]? = some x) :
     psum f l (i + 1) = psum f l i + f x := by
   simp [psum, List.take_succ, h]
 
@@ -160,13 +160,13 @@ theorem maxTo_last (f : Nat → Nat) (g : Nat → Nat) (hg : ∀ d, g d ≤ f d 
   have := hg n
   omega
 
-theorem length_encMeshLod (l : MeshLod) : (encMeshLod l).length = l.mid.length + 32 := by
+private theorem length_encMeshLod (l : MeshLod) : (encMeshLod l).length = l.mid.length + 32 := by
   simp [encMeshLod, zeros]
   omega
 
 /-- the encoded runtime block has the same length whatever the `MeshLod` rows hold, as long as
 their `mid` blocks have the same lengths -/
-theorem length_encModelData_lods (v : UInt32) (d : ModelData) (L : List MeshLod)
+private theorem length_encModelData_lods (v : UInt32) (d : ModelData) (L : List MeshLod)
     (h : L.map (·.mid.length) = d.lods.map (·.mid.length)) :
     (encModelData v { d with lods := L }).length = (encModelData v d).length := by
   have : (L.flatMap encMeshLod).length = (d.lods.flatMap encMeshLod).length := by
@@ -543,7 +543,7 @@ theorem md_eq_of_strip {X Y : ModelData} (h : stripMD X = stripMD Y) (hh : X.hea
   simp only [ModelData.mk.injEq]
   simp_all
 
-theorem modelDataOk_lods (fh fh' : FileHeader) (d : ModelData) (L : List MeshLod)
+private theorem modelDataOk_lods (fh fh' : FileHeader) (d : ModelData) (L : List MeshLod)
     (hv : fh'.version = fh.version) (hd : fh'.vertexDeclarationCount = fh.vertexDeclarationCount)
     (h : modelDataOk fh d = true) (hL : L.length = 3) (hmid : ∀ l ∈ L, l.mid.length = 28) :
     modelDataOk fh' { d with lods := L } = true := by
